@@ -216,6 +216,8 @@ def run_check(args, root):
     stream = task_stream(prop, pid, args.seed, args.tier)
     if hasattr(prop, 'tasks'):
         stream = prop.tasks(args.seed, args.tier)
+    grace = getattr(prop, 'GRACE', 30)
+    stream = ({**t, 'deadline': t0 + budget + grace} for t in stream)
     # run in slices so that an unknown violation stops the batch early
     deadline = t0 + budget
     unknown = []
